@@ -78,8 +78,10 @@ impl Wake for TaskWaker {
       sh.stats[*tid].wakes.fetch_add(1, Ordering::Relaxed);
       rt::note("wake", &format!("t{}", tid));
     }
-    self.notified.store(true, Ordering::SeqCst);
+    // (the token first: `unpark` begins with a scheduling point; flag and token then change in one scheduler slice,
+    // so the executor never sees the flag without the token unless the token was really consumed)
     self.thread.unpark();
+    self.notified.store(true, Ordering::SeqCst);
   }
 }
 
